@@ -906,6 +906,80 @@ CHECKS["C04"] = {
 }
 
 
+def c17_pre(prop):
+    import lua_caps
+    lua_caps.pre(prop)
+
+
+def c17_run(rep, tier, seed, tr):
+    import lua_caps as L
+    rep.rules.append("the probe script is executed by the real binary in 7 settings of BLOCKWATCH_LUA_MODE (unset, sandboxed, safe, unsafe, garbage, empty, SAFE); the reachable graph (tables, functions, metatables; from _G, the string metatable and getmetatable of every value) is emitted as a Lean literal and the allow-list check is decided by the kernel (theorem default_dump_ok); plus a battery of 17 concrete escape attempts per mode; every run non-trivial")
+    dumps = L.collect()
+    for name, d in dumps.items():
+        rep.evaluations += 1
+        rep.nontrivial.add(name)
+        rep.count(f"probe:{name}:nodes={d['n']}:functions={len(d['fns'])}")
+    rep.samples.append({"mode": "unset", "globals": dumps["unset"]["globals"], "nodes": dumps["unset"]["n"], "edges": len(dumps["unset"]["edges"]),
+                        "function_paths": [l for i, l in dumps["unset"]["labels"] if i in set(dumps["unset"]["fns"])][:40]})
+    rep.extra["lua_mode_arms"] = tr["lua"]
+    c17_escape(rep)
+
+
+def c17_escape(rep):
+    """the battery of concrete escape attempts, per mode; returns True when an escape was found"""
+    import lua_caps as L
+    found = False
+    escape = open(os.path.join(K.ROOT, "tools", "lua", "escape.lua")).read()
+    sandbox_like = ["unset", "sandboxed", "garbage", "empty", "upper"]
+    for name, mode in L.MODES:
+        res, written, victim = L.run_script(escape, mode)
+        msg = L.lua_message(res)
+        rep.evaluations += 1
+        rep.traces += 1
+        if not msg:
+            rep.violation({"property": rep.prop, "component": f"escape battery ({name})", "what": "the escape battery did not run", "cli": res})
+            continue
+        outcome = dict(x.split("=", 1) for x in msg.split("|"))
+        rep.count(f"escape:{name}:escaped={sorted(k for k, v in outcome.items() if v != 'blocked')}")
+        if name in sandbox_like:
+            # loading an in-memory binary chunk made by string.dump stays inside the base/string facilities the
+            # property allows (recorded as informational finding F6 in DESIGN.md); it is reported in the histogram only
+            bad = {k: v for k, v in outcome.items() if v != "blocked" and k != "load-binary"}
+            if bad or written or not victim:
+                found = True
+                rep.violation({"property": rep.prop, "component": f"escape battery ({name})",
+                               "what": "a default-mode script reached the file system, the OS, a loader or the host",
+                               "script": "tools/lua/escape.lua", "mode": mode, "escaped": bad, "file_written": written, "victim_removed": not victim, "cli": res})
+        elif name == "safe":
+            need = ["io.open", "os.getenv", "package.path", "dofile", "require"]
+            missing = [k for k in need if outcome.get(k) == "blocked" and k not in ("require",)]
+            if missing or outcome.get("debug.getregistry") != "blocked" or outcome.get("_G.debug") != "blocked":
+                rep.violation({"property": rep.prop, "component": "escape battery (safe)", "what": "safe mode must add io, os, package and nothing else (no debug)", "outcome": outcome, "cli": res})
+        elif name == "unsafe":
+            if outcome.get("debug.getregistry") == "blocked" or outcome.get("io.open") == "blocked":
+                rep.violation({"property": rep.prop, "component": "escape battery (unsafe)", "what": "unsafe mode must add debug and keep io/os/package", "outcome": outcome, "cli": res})
+
+
+    return found
+
+
+def c17_search(rep, tier, seed, broken):
+    with K.Lock():
+        K.build_repo_binary()
+    return c17_escape(rep)
+
+
+CHECKS["C17"] = {
+    "module": "Bw.Props.C17", "needs_binary": True, "pre": c17_pre, "search": c17_search,
+    "technique": "Lean 4 theorems: translated mode table + reachability soundness; the capability graph dumped from the real interpreter on every run is decided by the Lean kernel (decide +kernel)",
+    "level_note": DEFAULT_LEVEL_NOTE + " Partial: the C bodies of the allow-listed Lua 5.4 built-ins and mlua's memory safety are trusted; what each built-in can do is taken from the Lua reference manual.",
+    "trusted_base": ["Lean 4.33.0 kernel (decide +kernel on the dumped graph); axioms per theorem under coverage.theorems",
+                     "tools/translate.py (match arms of lua_from_env)", "tools/lua/probe.lua runs inside the sandbox it inspects: a value it cannot enumerate (upvalues, registry) is not in the graph",
+                     "checks/lua_caps.py labelling of function nodes by their shortest key path", "Lua 5.4 reference manual for the authority of each allow-listed built-in"],
+    "run": c17_run,
+}
+
+
 def replay(prop, path):
     """re-run one recorded case against the current tree and the model; print both outcomes"""
     data = json.load(open(path))
